@@ -668,7 +668,11 @@ func main() {
 			w = newWorld(rng)
 			w.setupMiners()
 		}
+		violated = false
 		w.step(rng, res, cs)
+		if violated {
+			w = nil // a violated ledger (e.g. minted supply) must not leak into later cases: start a fresh world
+		}
 	}
 	cs.Close()
 	res.ModelCases = cs.Total()
@@ -788,7 +792,7 @@ func (w *world) step(r *hx.Rng, res *hx.Result, cs *hx.Cases) {
 	}()
 	if panicked != nil {
 		res.Count("panic", fmt.Sprint(g.desc), true)
-		res.Violate("C06/total:executor-panic", fmt.Sprintf("block execution panicked: %v", panicked), g.desc)
+		violate(res, "C06/total:executor-panic", fmt.Sprintf("block execution panicked: %v", panicked), g.desc)
 		w.Boundary()
 		return
 	}
@@ -953,11 +957,11 @@ func (w *world) step(r *hx.Rng, res *hx.Result, cs *hx.Cases) {
 			key = "C06/decrease-only:" + class
 			what = "balances + locked stake + escrow shrank by " + new(big.Int).Neg(delta).String() + " beyond stake locking and self-destruct burns"
 		}
-		res.Violate(key, what, input)
+		violate(res, key, what, input)
 	}
 	for i, b := range balAfter {
 		if b.Sign() < 0 || b.BitLen() > 256 {
-			res.Violate("C06/nonneg:"+short(w, uni[i]), "balance negative or wider than a 256-bit slot: "+b.String(), input)
+			violate(res, "C06/nonneg:"+short(w, uni[i]), "balance negative or wider than a 256-bit slot: "+b.String(), input)
 		}
 	}
 
@@ -975,7 +979,7 @@ func (w *world) step(r *hx.Rng, res *hx.Result, cs *hx.Cases) {
 		if info != nil && info.Ran && rc != nil {
 			// the extraction run must have seen what the real run did
 			if (info.EvmErr == "") != success || info.GasUsed != rc.GasUsed {
-				res.Violate("C06/correspondence:extraction-diverged", fmt.Sprintf("trace extraction (err=%q gas=%d) and real execution (status=%d gas=%d) disagree", info.EvmErr, info.GasUsed, rc.Status, rc.GasUsed), input)
+				violate(res, "C06/correspondence:extraction-diverged", fmt.Sprintf("trace extraction (err=%q gas=%d) and real execution (status=%d gas=%d) disagree", info.EvmErr, info.GasUsed, rc.Status, rc.GasUsed), input)
 				return
 			}
 		}
@@ -1004,6 +1008,13 @@ func (w *world) step(r *hx.Rng, res *hx.Result, cs *hx.Cases) {
 		zlit(new(big.Int).Sub(lockedAfter, lockedBefore)), zlit(escTotal(escAfter)))
 	term = strings.ReplaceAll(term, "(-", "(-") // negative literals are already parenthesised
 	cs.Add("("+term+")%Z", map[string]interface{}{"kind": g.kind, "class": class, "height": hd, "tx": g.desc, "ops": ops})
+}
+
+var violated bool
+
+func violate(res *hx.Result, key, what string, input interface{}) {
+	violated = true
+	res.Violate(key, what, input)
 }
 
 func srcOf(g gen) common.Address {
